@@ -370,8 +370,44 @@ func roleOf(cs c18Case, isDep bool) string {
 	return "page"
 }
 
+// c18CheckReserveFiles: "files that declare reserves are layouts and are not directly renderable", whatever else they hold.
+func c18CheckReserveFiles(cs c18Case) (bool, string, string, string) {
+	shapes := []string{
+		`<b>@reserve("w")</b>`,                                // a plain layout
+		`@use("base")@insert("w")X@end@reserve("z")`,          // uses a layout itself and declares a reserve
+		`@if(true)@reserve("z")@end`,                          // the reserve sits in a block
+		`@reserve("z", "unused")text {{ 1 }}`,                 // a reserve among other content
+		`@component("card")@reserve("z")`,                     // next to a component
+	}
+	t := Tree{Dir: "t", Ext: ".tw", Files: map[string]string{"base.tw": `<b>@reserve("w")</b>`, "card.tw": "[c]", "pg.tw": "plain", "mid.tw": shapes[cs.Cut%len(shapes)]}}
+	t.write()
+	tpl, lo := t.load()
+	expected := "a file that declares a reserve is not registered as a renderable template: " + t.Files["mid.tw"]
+	if lo.Kind != KOut {
+		if lo.Kind == KPanic || lo.Kind == KHang {
+			return false, lo.Kind + "@" + lo.Site, expected, lo.String()
+		}
+		return true, "", expected, lo.String() // rejected at load: not renderable either
+	}
+	for _, n := range textwire.VerifProgramNames(tpl) {
+		if n == "mid" || n == "base" {
+			return false, "reserve-file-registered-as-page", expected, "registered names: " + strings.Join(textwire.VerifProgramNames(tpl), ",")
+		}
+	}
+	if o := render(tpl, "mid", nil); o.Kind != KErr {
+		return false, "reserve-file-renderable", expected, o.String()
+	}
+	if o := render(tpl, "pg", nil); o.Kind != KOut || o.Out != "plain" {
+		return false, "plain-page-lost", expected, o.String()
+	}
+	return true, "", expected, "not renderable"
+}
+
 func c18Check(cs c18Case) (bool, string, string, string) {
 	rt.ResetRoot()
+	if cs.Mode == "reserve-files" {
+		return c18CheckReserveFiles(cs)
+	}
 	if cs.Mode == "tree" {
 		return c18CheckTree(cs)
 	}
@@ -437,6 +473,14 @@ func c18Run(c *Ctx) {
 				if !do(c18Case{Mode: "fault", Base: bi, Target: f, Fault: "truncated", Cut: cut, Reload: true}, true) {
 					return
 				}
+			}
+		}
+	}
+	// (c) files that declare reserves, in five shapes
+	if c.Mine() {
+		for i := 0; i < 5; i++ {
+			if !do(c18Case{Mode: "reserve-files", Cut: i}, true) {
+				return
 			}
 		}
 	}
